@@ -221,6 +221,7 @@ func slots(names []string, rich bool) []*gen.Node {
 		out = append(out, gen.Ref(x))
 		out = append(out, gen.Ref(x).With(gen.R("optional", "true")))
 		out = append(out, gen.Arr(gen.Ref(x)))
+		out = append(out, gen.Arr(gen.Int("1"), gen.Ref(x)), gen.Arr(gen.Ref(x), gen.Int("1")))
 		if rich {
 			out = append(out, gen.Obj(gen.P("q", gen.Ref(x))))
 			out = append(out, gen.Ref(x).With(gen.R("nullable", "true")))
